@@ -85,6 +85,9 @@ fn check_prep(p: &Prep, out: &Outcome<CObs>) -> Option<(String, String)> {
     let before: f64 = p.pop.iter().map(|i| i.1).sum::<f64>() + p.ke.iter().sum::<f64>() + p.buffer;
     let after: f64 = pop.iter().map(|i| i.1).sum::<f64>() + o.ke.iter().sum::<f64>() + o.buffer;
     // relative to the energy in the system (no absolute floor: energies of 1e-12 are conserved like energies of 1)
+    if o.ke.iter().any(|k| k.is_nan()) || o.buffer.is_nan() {
+        return Some((format!("{} undefined-energy", head), ctx(format!("kinetic energies {:?}, buffer {}", o.ke, o.buffer))));
+    }
     let scale = before.abs().max(after.abs());
     let accepted = *pop != p.pop.iter().map(|i| (i.0, i.1)).collect::<Vec<_>>() || o.ke != p.ke;
     if (before - after).abs() > 1e-9 * scale {
@@ -97,7 +100,27 @@ fn check_prep(p: &Prep, out: &Outcome<CObs>) -> Option<(String, String)> {
         return Some((format!("{} negative-energy", head), ctx(format!("kinetic energies {:?}, buffer {}", o.ke, o.buffer))));
     }
     // untouched indices keep their individual and molecule
+    let twins = p.reactants.iter().any(|r| p.pop.iter().enumerate().any(|(i, x)| i != *r && *x == p.pop[*r] && p.ke[i] == p.ke[*r]));
+    if twins {
+        // a reactant has an identical twin (same individual, same kinetic energy): which of the two is consumed is not
+        // observable; everything but one instance per reactant must still be there, unchanged
+        let mut after: Vec<(u32, f64, f64)> = pop.iter().zip(&o.ke).map(|(i, k)| (i.0, i.1, *k)).collect();
+        for i in 0..p.pop.len() {
+            if p.reactants.contains(&i) {
+                continue;
+            }
+            match after.iter().position(|a| *a == (p.pop[i].0, p.pop[i].1, p.ke[i])) {
+                Some(k) => {
+                    after.remove(k);
+                }
+                None => return Some((format!("{} untouched-molecule-changed", head), ctx(format!("a molecule like bystander {} ({:?}, kinetic energy {}) is missing: population {:?}, kinetic energies {:?}", i, p.pop[i], p.ke[i], pop, o.ke)))),
+            }
+        }
+    }
     for i in 0..p.pop.len().min(pop.len()) {
+        if twins {
+            break;
+        }
         if !p.reactants.contains(&i) {
             // synthesis removes the second reactant, shifting later indices
             let shift = if p.reaction == 3 && accepted && i > p.reactants[1] { 1 } else { 0 };
@@ -198,6 +221,23 @@ pub fn preps(thorough: bool) -> Vec<Prep> {
                 let pop: Vec<TInd> = (0..n).map(|i| if i < 2 { (7, 1.0) } else { (8, 3.0) }).collect();
                 v.push(Prep { reaction: 3, pop: pop.clone(), ke: ke.clone(), buffer, reactants: vec![0, 1], products: vec![(100, pv)], lr: 0.0 });
                 v.push(Prep { reaction: 2, pop: pop.clone(), ke: ke.clone(), buffer, reactants: vec![0, 1], products: vec![(100, pv), (101, 0.5)], lr: 0.0 });
+            }
+        }
+    }
+    // a bystander molecule identical to one of the two reactants (same individual, same kinetic energy): the reaction
+    // consumes one of the twins and the other reactant, never both twins
+    for &buffer in &BUF {
+        for &pv in &OBJ {
+            for (pop, reactants) in [
+                (vec![(7u32, 1.0), (7, 1.0), (8, 3.0)], vec![0usize, 2]),
+                (vec![(7, 1.0), (7, 1.0), (8, 3.0)], vec![2, 1]),
+                (vec![(8, 3.0), (8, 3.0), (7, 1.0)], vec![0, 2]),
+                (vec![(8, 3.0), (8, 3.0), (7, 1.0)], vec![2, 0]),
+                (vec![(8, 3.0), (7, 1.0), (7, 1.0), (8, 3.0)], vec![1, 3]),
+            ] {
+                let ke: Vec<f64> = pop.iter().map(|i: &TInd| if i.0 == 7 { 0.5 } else { 2.0 }).collect();
+                v.push(Prep { reaction: 3, pop: pop.clone(), ke: ke.clone(), buffer, reactants: reactants.clone(), products: vec![(100, pv)], lr: 0.0 });
+                v.push(Prep { reaction: 2, pop: pop.clone(), ke: ke.clone(), buffer, reactants: reactants.clone(), products: vec![(100, pv), (101, 0.5)], lr: 0.0 });
             }
         }
     }
@@ -377,6 +417,8 @@ pub fn run(rep: &mut Report) {
     rep.alpha("component level: OnWallIneffectiveCollisionUpdate (loss rate 0 | 0.5), DecompositionUpdate, IntermolecularIneffectiveCollisionUpdate, SynthesisUpdate on prepared stacks [sentinel, population, reactants, products]: populations of 2..3 molecules, objective values {0,0.5,1,3}, kinetic energies {0,0.5,2}, buffer {0,1,10}; all generator tapes over the first 3 draws");
     rep.alpha("run level: every reaction update of real_cro runs (5 parameter sets x objective functions) under the default generator stream with at most one replaced word at every draw position");
     rep.assume("energy = sum of objective values of the population + sum of kinetic energies + buffer, compared with relative tolerance 1e-9; populations with exact duplicate individuals are left to the run level");
+    rep.assume("all energies are finite: with an infinite objective value (death penalty) or an overflowing sum the total is infinite and \"unchanged up to rounding\" states nothing; such molecules are outside the alphabet (the unchanged updates already turn inf - inf into NaN kinetic energies there)");
+    rep.alpha("a bystander molecule identical to one of two reactants ([x, x, y] with x + y reacting, either storage order, four molecules)");
     let seed = rep.seed;
     let ps = preps(thorough);
     let (menu, depth): (&[u64], usize) = if thorough { (&MENU8, 3) } else { (&MENU4, 3) };
